@@ -41,10 +41,16 @@ def strip_comments(s):
     return ''.join(out)
 
 
-def audit():
+def audit(dirs):
     """textual audit of the Rocq sources; returns list of problems"""
     probs = []
-    d = os.path.join(C.VERIF, 'coq')
+    for d in dirs:
+        probs += audit_dir(d)
+    return probs
+
+
+def audit_dir(d):
+    probs = []
     for fn in sorted(os.listdir(d)):
         if not fn.endswith('.v'):
             continue
@@ -65,14 +71,13 @@ def audit():
     return probs
 
 
-def rocq_obligations(prop, theorems):
+def rocq_obligations(prop, theorems, d, logical):
     """compile Props_<prop>.v, parse Print Assumptions; returns (n_obligations, n_discharged, problems, axioms)"""
-    d = os.path.join(C.VERIF, 'coq')
     fn = 'Props_%s.v' % prop
     probs = []
     if not os.path.exists(os.path.join(d, fn)):
         return len(theorems), 0, ['missing ' + fn], {}
-    r = C.sh('cd %s && timeout 600 coqc -R . AwkV %s' % (d, fn))
+    r = C.sh('cd %s && timeout 600 coqc %s %s' % (d, logical, fn))
     if r.returncode != 0:
         m = re.search(r'File "\./%s", line (\d+)' % re.escape(fn), r.stdout)
         which = '?'
@@ -141,8 +146,16 @@ def main():
             C.build_model()
     except C.BuildError as e:
         rocq_probs.append(str(e)[-1500:])
-    rocq_probs += audit()
-    n_obl, n_dis, probs, axioms = rocq_obligations(prop, mod.THEOREMS)
+    core = os.path.join(C.VERIF, 'coq')
+    coqdir = getattr(mod, 'COQ_DIR', core)
+    logical = getattr(mod, 'COQ_LOGICAL', '-R . AwkV')
+    if hasattr(mod, 'build') and not a.no_build:
+        try:
+            mod.build()
+        except C.BuildError as e:
+            rocq_probs.append(str(e)[-1500:])
+    rocq_probs += audit([core] + ([coqdir] if coqdir != core else []))
+    n_obl, n_dis, probs, axioms = rocq_obligations(prop, mod.THEOREMS, coqdir, logical)
     rocq_probs += probs
 
     # ---- correspondence
@@ -202,6 +215,8 @@ def main():
     C.log('done: exit %d, %d violation(s), obligations %d/%d' % (exit_code, nviol, discharged, obligations))
     sys.exit(exit_code)
 
+
+KNOWN = C.load_known()
 
 DEFAULT_TB = [
     'Rocq kernel: coqc 8.16.1 (vm_compute used; native_compute not used)',
@@ -268,8 +283,11 @@ def default_run(mod, cases, tier):
             findings.append(dict(kind='bad', what='correspondence corr:%s could not be evaluated: %s' % (op, v[:300]),
                                  case_lines=[c.line()], signature=None, no_input=True, size=len(c.line())))
             continue
-        per_op_ok['corr:' + op] = False
         sig = mod.signature(c, impl, v) if hasattr(mod, 'signature') else None
+        if sig is not None and match_known(KNOWN, mod.__name__.split('.')[-1].upper(), dict(signature=sig)) is None:
+            per_op_ok['corr:' + op] = False
+        elif sig is None:
+            per_op_ok['corr:' + op] = False
         if kind == 'viol' or kind == 'crash':
             what = '%s: implementation %s  [%s]' % (op, 'crashed/hung (%s)' % impl if kind == 'crash' else 'differs from specification', v[:600])
             findings.append(dict(kind=kind, what=what, case_lines=[c.line(), '# impl: ' + impl[:1000], '# verdict: ' + v[:1500]] +
